@@ -100,6 +100,20 @@ def bcast_value(arr_shape, flat, sample_shape):
     return f
 
 
+class NegZero(Fraction):
+    """The IEEE negative zero as a shift value (what negating a delay array that contains 0.0 produces): numerically 0, sign bit set."""
+    def __str__(self):
+        return "-0.0"
+
+
+def shift_num(v, unit=None):
+    """The evaluator value of one shift entry."""
+    if isinstance(v, NegZero):
+        return Num(sp.Integer(0) * (unit if unit is not None else 1), isfloat=True, tag="negzero", **({"kind": "quantity", "unit": unit} if unit is not None else {}))
+    e = sp.Rational(v.numerator, v.denominator)
+    return Num(e * unit, kind="quantity", unit=unit) if unit is not None else Num(e)
+
+
 def coverage_cases(tier, fi=None):
     """[(sample_shape, shift shape, flat shift values)].  Besides the small shapes, one case per integer literal that the
     function compares a size/length against (a vectorised fast path behind `shift.size > 32`, say) is generated on the far
@@ -119,6 +133,8 @@ def coverage_cases(tier, fi=None):
     cases.append((ss, (1, 1), [F_(7, 2)]))
     cases.append((ss, (), [F_(-19)]))           # N < |s| < 2N: a start index of N + floor(s) would be negative
     cases.append((ss, (2,), [F_(-37, 2), F_(25)]))
+    cases.append((ss, (2,), [NegZero(0), F_(3)]))          # -0.0 is a zero shift: nothing of that element is zero-filled
+    cases.append((ss, (1, 3), [F_(-2), NegZero(0), F_(0)]))
     sizes = {40}
     if fi is not None:
         for n in _ast.walk(fi.node):
@@ -407,7 +423,7 @@ def check(run, prog):
 
     def make_args(shp, vals, sample_shape, n):
         z = make_signal(prog, "Signal", n=n, extra=sample_shape, dtype="complex128")
-        elems = [Num(sp.Rational(v.numerator, v.denominator)) for v in vals]
+        elems = [shift_num(v) for v in vals]
         sh = elems[0] if not shp else NdArr(shp, elems)
         return [z, sh], {}
     run_coverage(ck, prog, fi, "R2", make_args, n_time, lambda arr: "IFFT" in str(arr.expr) or "Opq" in str(arr.expr), "time_shift")
